@@ -27,7 +27,56 @@
 -/
 import CRModel.Basic
 import CRModel.TrafficLight
+import CRModel.Cache
 namespace CR.Frame
+
+/-- Which variant of the code runs.  Every flag names one place where the code writes (or once wrote, or — in a seeded
+    change — would write) into an object the caller owns.  `repaired` (all flags off) is the code as it is; it is the
+    default instance, so the driver and every theorem that does not say otherwise are about it.  The other variants exist
+    so that the frame theorem is a statement that CAN fail: for each flag there is a theorem exhibiting the family of
+    states on which that variant changes the observable state. -/
+class Sem where
+  /-- before `fix: … no longer adds an orientation attribute`: `_create_occupancy_set` set `state.orientation` on the
+      trajectory's own state instead of on a copy (prediction.py:393-395 of the pinned tree) -/
+  occWritesOrientation : Bool
+  /-- before `fix: protobuf writer reads the goal lanelets … only if the table has an entry`: `table[i]` for every goal
+      index whenever the table is not None -/
+  pbIndexesTable : Bool
+  /-- before `fix: Lanelet.merge_lanelets no longer adds …`: the ids of the second lanelet were added to the registries of
+      the first one, which the merged lanelet then shared -/
+  mergeInPlace : Bool
+  /-- seeded: `_harmonize_state_types` with `state_new = state` instead of a deep copy -/
+  harmonizeNoCopy : Bool
+  /-- seeded: `dynamic_obstacle_by_time_step` as `dict.setdefault(t, set())` -/
+  dynByTimeInserts : Bool
+  deriving DecidableEq, Repr
+
+@[reducible] def Sem.repaired : Sem := ⟨false, false, false, false, false⟩
+/-- the pinned tree before the three `fix:` commits -/
+@[reducible] def Sem.legacy : Sem := ⟨true, true, true, false, false⟩
+/-- the two seeded changes -/
+@[reducible] def Sem.seeded : Sem := ⟨false, false, false, true, true⟩
+
+instance instSem : Sem := Sem.repaired
+
+/-- further observable attributes of an object: attribute name ↦ content token -/
+abbrev Attrs := List (String × Int)
+
+/-- Everything observable that no modelled operation looks into, one content token per public attribute (the harness interns
+    the reflective snapshot of the attribute's value): the scenario's own attributes (dt, scenario_id, author, tags,
+    affiliation, source, location); per obstacle its type, shape, signal states and series, meta information, history,
+    lanelet assignments, prediction extras; per lanelet its three vertex arrays, adjacency, line markings, types, users,
+    stop line, sign references, adjacent areas; the traffic signs; per traffic light position, direction, colour, shape,
+    `cycle.active`; the intersections; the network's information and areas.  The writers read all of it. -/
+structure Extra where
+  scenario : Attrs := []
+  network : Attrs := []
+  obstacles : List (Nat × Attrs) := []
+  lanelets : List (Nat × Attrs) := []
+  signs : List (Nat × Attrs) := []
+  lights : List (Nat × Attrs) := []
+  intersections : List (Nat × Attrs) := []
+  deriving DecidableEq, Repr, Inhabited
 
 /-! ## States -/
 
@@ -94,28 +143,36 @@ def occOfState (shape : Int) (s : TState) : Res Occ := do
   let p ← s.getattr "position"
   pure ⟨s.t, s.t, .placed shape p o⟩
 
-/-- `_create_occupancy_set` after the repair: the states are only read. -/
-def createOccSet (shape : Int) (states : List TState) : Res (List Occ) :=
+/-- the occupancies `_create_occupancy_set` computes, as a function of the states (used to state the cache invariant) -/
+def createOccs (shape : Int) (states : List TState) : Res (List Occ) :=
   states.mapM (occOfState shape)
 
-/-- `_create_occupancy_set` BEFORE the repair (prediction.py:393-395 of the pinned tree):
-    `if not hasattr(state, "orientation"): state.orientation = atan2(...)` writes into the state.  The new value is a
-    computed one; it is represented by the token `-1 - (index of the state)`.  Kept to state the defect as a theorem. -/
-def createOccSetOld (shape : Int) : List TState → Nat → List TState × Res (List Occ)
+/-- `_create_occupancy_set` (prediction.py:390-410) as a transformer of the trajectory's state list: (the states afterwards,
+    the occupancies).  For a state without `orientation` the heading is computed and stored in an `orientation` attribute —
+    of a `copy.copy` of the state (now), of the state itself (`occWritesOrientation`).  The stored value is a computed
+    one; it is represented by the token `-1 - (index of the state)`. -/
+def createOccLoop [sem : Sem] (shape : Int) : List TState → Nat → List TState × Res (List Occ)
   | [], _ => ([], .ok [])
   | s :: rest, i =>
     if s.hasattr "orientation" then
       match occOfState shape s with
       | .error e => (s :: rest, .error e)
-      | .ok o => let (rest', r) := createOccSetOld shape rest (i + 1); (s :: rest', (o :: ·) <$> r)
+      | .ok o => (s :: (createOccLoop shape rest (i + 1)).1, (o :: ·) <$> (createOccLoop shape rest (i + 1)).2)
     else
       match stateOri s with
       | .error e => (s :: rest, .error e)
-      | .ok _ =>
-        let s' := { s with attrs := s.attrs ++ [("orientation", some (-1 - (i : Int)))] }
-        match occOfState shape s' with
-        | .error e => (s' :: rest, .error e)
-        | .ok o => let (rest', r) := createOccSetOld shape rest (i + 1); (s' :: rest', (o :: ·) <$> r)
+      | .ok ori =>
+        -- the object that carries the computed heading, and what the trajectory's list holds afterwards
+        let withOri : TState := { s with attrs := s.attrs ++ [("orientation", some (-1 - (i : Int)))] }
+        let kept := if sem.occWritesOrientation then withOri else s
+        match s.getattr "position" with
+        | .error e => (kept :: rest, .error e)
+        | .ok p =>
+          (kept :: (createOccLoop shape rest (i + 1)).1,
+           ((⟨s.t, s.t, .placed shape p ori⟩ : Occ) :: ·) <$> (createOccLoop shape rest (i + 1)).2)
+
+def createOccSet [sem : Sem] (shape : Int) (states : List TState) : List TState × Res (List Occ) :=
+  createOccLoop shape states 0
 
 /-! ## Goal checks: a small object store, because what matters here is which object gets written -/
 
@@ -181,12 +238,11 @@ def reachedLoop (harm : Heap → Nat → List String → List String → Int →
       | .ok d => ((reachedLoop harm hr.1 r gs dec.tail).1, (fun b => d || b) <$> (reachedLoop harm hr.1 r gs dec.tail).2)
 
 /-- `GoalRegion.is_reached(state)`: (the caller's state afterwards, the answer) -/
-def isReached (goals : List (List String)) (st : TState) (dec : List (Res Bool)) : TState × Res Bool :=
-  (((reachedLoop harmonize [st] 0 goals dec).1).getD 0 default, (reachedLoop harmonize [st] 0 goals dec).2)
+def harmonizeOf [sem : Sem] : Heap → Nat → List String → List String → Int → Int → Heap × Nat × List String :=
+  if sem.harmonizeNoCopy then harmonizeNoCopy else harmonize
 
-/-- the same with the seeded `_harmonize_state_types` -/
-def isReachedNoCopy (goals : List (List String)) (st : TState) (dec : List (Res Bool)) : TState × Res Bool :=
-  (((reachedLoop harmonizeNoCopy [st] 0 goals dec).1).getD 0 default, (reachedLoop harmonizeNoCopy [st] 0 goals dec).2)
+def isReached [sem : Sem] (goals : List (List String)) (st : TState) (dec : List (Res Bool)) : TState × Res Bool :=
+  (((reachedLoop harmonizeOf [st] 0 goals dec).1).getD 0 default, (reachedLoop harmonizeOf [st] 0 goals dec).2)
 
 /-- pair every state with its decision list (missing lists are empty) -/
 def zipDec : List TState → List (List (Res Bool)) → List (TState × List (Res Bool))
@@ -196,7 +252,7 @@ def zipDec : List TState → List (List (Res Bool)) → List (TState × List (Re
 
 /-- `PlanningProblem.goal_reached` (planning_problem.py:86-96): the states from the last to the first, the first hit wins.
     The list comes in reversed; the answer is the index in the original order. -/
-def grLoop (goals : List (List String)) : List (TState × List (Res Bool)) → List TState × Res (Option Nat)
+def grLoop [sem : Sem] (goals : List (List String)) : List (TState × List (Res Bool)) → List TState × Res (Option Nat)
   | [] => ([], .ok none)
   | (st, dec) :: rest =>
     match (isReached goals st dec).2 with
@@ -205,7 +261,7 @@ def grLoop (goals : List (List String)) : List (TState × List (Res Bool)) → L
     | .ok false => ((isReached goals st dec).1 :: (grLoop goals rest).1, (grLoop goals rest).2)
 
 /-- (the trajectory states afterwards, `(True, i)` as `some i` / `(False, -1)` as `none`) -/
-def goalReachedStates (goals : List (List String)) (states : List TState) (decs : List (List (Res Bool))) :
+def goalReachedStates [sem : Sem] (goals : List (List String)) (states : List TState) (decs : List (List (Res Bool))) :
     List TState × Res (Option Nat) :=
   ((grLoop goals (zipDec states decs).reverse).1.reverse, (grLoop goals (zipDec states decs).reverse).2)
 
@@ -227,15 +283,16 @@ inductive Pred where
 
 def SOcc.toOcc (o : SOcc) : Occ := ⟨o.lo, o.hi, .fixed o.shape⟩
 
-/-- `prediction.occupancy_set` -/
-def Pred.occSet : Pred → Pred × Res (List Occ)
+/-- `prediction.occupancy_set`: the computation runs over the trajectory's own state list; what it leaves there is what the
+    prediction holds afterwards -/
+def Pred.occSet [sem : Sem] : Pred → Pred × Res (List Occ)
   | .absent => (.absent, .error .attr)                   -- `None.occupancy_set`
   | .setBased occs => (.setBased occs, .ok (occs.map SOcc.toOcc))
   | .traj t1 ss sh (some c) => (.traj t1 ss sh (some c), .ok c)
   | .traj t1 ss sh none =>
-    match createOccSet sh ss with
-    | .ok c => (.traj t1 ss sh (some c), .ok c)          -- cached_property stores the value
-    | .error e => (.traj t1 ss sh none, .error e)        -- nothing is stored when the computation raises
+    match (createOccSet sh ss).2 with
+    | .ok c => (.traj t1 (createOccSet sh ss).1 sh (some c), .ok c)          -- cached_property stores the value
+    | .error e => (.traj t1 (createOccSet sh ss).1 sh none, .error e)        -- nothing is stored when the computation raises
 
 /-- first occupancy whose time step (or interval) matches (prediction.py:128-135) -/
 def findOcc (t : Int) : List Occ → Option Occ
@@ -243,7 +300,7 @@ def findOcc (t : Int) : List Occ → Option Occ
   | o :: rest => if o.lo ≤ t ∧ t ≤ o.hi then some o else findOcc t rest
 
 /-- `prediction.occupancy_at_time_step(t)` -/
-def Pred.occAt (p : Pred) (t : Int) : Pred × Res (Option Occ) :=
+def Pred.occAt [sem : Sem] (p : Pred) (t : Int) : Pred × Res (Option Occ) :=
   (p.occSet.1, (findOcc t) <$> p.occSet.2)
 
 /-- `prediction.trajectory.state_at_time_step(t)` as an index into the state list (trajectory.py:140-142) -/
@@ -271,7 +328,7 @@ def Obstacle.role : Obstacle → Role
   | .static .. => .static | .dynamic .. => .dynamic | .phantom .. => .phantom | .environment .. => .environment
 
 /-- `obstacle.occupancy_at_time(t)` -/
-def Obstacle.occAt (o : Obstacle) (t : Int) : Obstacle × Res (Option Occ) :=
+def Obstacle.occAt [sem : Sem] (o : Obstacle) (t : Int) : Obstacle × Res (Option Occ) :=
   match o with
   | .static _ _ r => (o, .ok (some ⟨t, t, r⟩))
   | .environment _ sh => (o, .ok (some ⟨t, t, .fixed sh⟩))
@@ -322,7 +379,7 @@ def withObstacle {α : Type} (os : List Obstacle) (oid : Nat) (f : Obstacle → 
 
 /-- `Scenario.occupancies_at_time_step` loop: for every obstacle of the role, `occupancy_at_time(t)` is evaluated for its
     truth value and, when there is one, once more for the list. -/
-def occsLoop (t : Int) (role : Option Role) : List Obstacle → List Obstacle × Res (List Occ)
+def occsLoop [sem : Sem] (t : Int) (role : Option Role) : List Obstacle → List Obstacle × Res (List Occ)
   | [] => ([], .ok [])
   | o :: rest =>
     if role = none ∨ role = some o.role then
@@ -408,6 +465,9 @@ structure Regs where
   dynObs : List (Int × List Nat)
   deriving DecidableEq, Repr, Inhabited
 
+def Lanelet.dynByTimeOf [sem : Sem] (l : Lanelet) (t : Int) : Lanelet × List Nat :=
+  if sem.dynByTimeInserts then l.dynByTimeSetdefault t else l.dynByTime t
+
 def Lanelet.regs (l : Lanelet) : Regs := ⟨l.staticObs, l.dynObs⟩
 
 def unionIds (a b : List Nat) : List Nat := a ++ b.filter (fun x => !a.contains x)
@@ -430,6 +490,9 @@ def mergeRegs (a b : Regs) : Regs × Regs :=
 /-- BEFORE the repair the ids of `l2` were added to the set / dict of `l1` itself, which the merged lanelet then shared -/
 def mergeRegsOld (a b : Regs) : Regs × Regs :=
   (⟨unionIds a.staticObs b.staticObs, mergeDyn a.dynObs b.dynObs⟩, ⟨unionIds a.staticObs b.staticObs, mergeDyn a.dynObs b.dynObs⟩)
+
+def mergeRegsOf [sem : Sem] : Regs → Regs → Regs × Regs :=
+  if sem.mergeInPlace then mergeRegsOld else mergeRegs
 
 def findLanelet (ls : List Lanelet) (lid : Nat) : Option Lanelet := ls.find? (·.id == lid)
 
@@ -487,18 +550,9 @@ structure Light where
   active : Bool := true
   deriving DecidableEq, Repr, Inhabited
 
-/-- `get_state_at_time_step` with the init steps it reads through `cycle_init_timesteps` -/
-def stateWith (init : List Int) (es : List TL.Elem) (off t : Int) : Res Nat :=
-  match pyGet? init (-1) with
-  | none => .error .index
-  | some last =>
-    let period := last - off
-    if period = 0 then .error .zeroDiv else
-    let tm := (t - off) % period + off
-    let i : Int := (argmaxLt tm init : Int) - 1
-    match pyGet? es i with
-    | none => .error .index
-    | some e => .ok e.1
+/-- `get_state_at_time_step` reading a given `_cycle_init_timesteps` array: C11's model function (Python `%` as `Int.fmod`);
+    on the array of a fresh cycle it is C17's `TL.stateAt` (`CR.Cache.stateAtWith (TL.initSteps es off) es off t = TL.stateAt es off t` by `rfl`) -/
+abbrev stateWith := CR.Cache.stateAtWith
 
 def Light.stateAt (l : Light) (t : Int) : Light × Res Nat :=
   let init := l.cache.getD (TL.initSteps l.es l.off)
@@ -545,17 +599,25 @@ def goalLaneletsOld (tbl : Option Tbl) (i : Nat) : Option Tbl × Res (List Nat) 
   | none => (none, .ok [])
   | some t => let (t', r) := t.getItem i; (some t', r)
 
+/-- the protobuf writer's lookup in the variant that runs -/
+def pbLook [sem : Sem] : Option Tbl → Nat → Option Tbl × Res (List Nat) :=
+  if sem.pbIndexesTable then goalLaneletsOld else goalLanelets
+
 structure Problem where
   id : Nat
   /-- `PlanningProblem.initial_state` -/
   init : TState := default
-  /-- one entry per goal state: its populated attributes without `time_step` (`used_attributes`).  The XML writer puts the
-      lanelet references inside the `position` element (file_writer_xml.py:893-897), the protobuf writer always writes them. -/
-  goals : List (List String)
+  /-- one entry per goal state: its populated attributes (`used_attributes`, `time_step` included) with their content
+      tokens.  The XML writer puts the lanelet references inside the `position` element (file_writer_xml.py:893-897), the
+      protobuf writer always writes them. -/
+  goals : List Attrs
   tbl : Option Tbl
   deriving DecidableEq, Repr, Inhabited
 
-def Problem.hasPos (p : Problem) : List Bool := p.goals.map (·.contains "position")
+/-- per goal state the names of its populated attributes, `time_step` left out (every state has one) -/
+def Problem.goalFields (p : Problem) : List (List String) := p.goals.map fun g => (g.map (·.1)).filter (· != "time_step")
+
+def Problem.hasPos (p : Problem) : List Bool := p.goalFields.map (·.contains "position")
 
 /-- all goal states of one problem, in order (`for i, state in enumerate(goal.state_list)`); `posOnly` = XML -/
 def goalLoop (look : Option Tbl → Nat → Option Tbl × Res (List Nat)) (posOnly : Bool) (tbl : Option Tbl) :
@@ -569,13 +631,21 @@ def goalLoop (look : Option Tbl → Nat → Option Tbl × Res (List Nat)) (posOn
       let (tbl2, rs) := goalLoop look posOnly tbl1 rest (i + 1)
       (tbl2, ((if posOnly && !hasPos then [] else ids) :: ·) <$> rs)
 
+/-- what a writer puts into the file for one planning problem -/
+structure ProbFile where
+  id : Nat
+  init : List (String × Int)          -- populated attributes of the initial state
+  goals : List Attrs                  -- the goal states
+  goalLanelets : List (List Nat)      -- per goal state the lanelet references
+  deriving DecidableEq, Repr, Inhabited
+
 def Problem.write (look : Option Tbl → Nat → Option Tbl × Res (List Nat)) (posOnly : Bool) (p : Problem) :
-    Problem × Res (Nat × List (List Nat)) :=
+    Problem × Res ProbFile :=
   let (tbl', r) := goalLoop look posOnly p.tbl p.hasPos 0
-  ({ p with tbl := tbl' }, (fun l => (p.id, l)) <$> r)
+  ({ p with tbl := tbl' }, (fun l => (⟨p.id, p.init.used, p.goals, l⟩ : ProbFile)) <$> r)
 
 def problemsWrite (look : Option Tbl → Nat → Option Tbl × Res (List Nat)) (posOnly : Bool) :
-    List Problem → List Problem × Res (List (Nat × List (List Nat)))
+    List Problem → List Problem × Res (List ProbFile)
   | [] => ([], .ok [])
   | p :: rest =>
     let (p', r) := p.write look posOnly
@@ -590,6 +660,7 @@ structure St where
   net : Net
   lights : List Light
   problems : List Problem
+  extra : Extra := {}
   deriving DecidableEq, Repr, Inhabited
 
 def Pred.obs : Pred → Pred
@@ -608,7 +679,8 @@ def St.obs (s : St) : St :=
   { obstacles := s.obstacles.map Obstacle.obs
     net := { s.net with index := none }
     lights := s.lights.map Light.obs
-    problems := s.problems }
+    problems := s.problems
+    extra := s.extra }
 
 /-- What a writer puts into the file, abstractly: per obstacle its id, the populated attributes of its initial state and of
     every trajectory state (or the occupancies of a set-based prediction); per planning problem the goal lanelets of every
@@ -620,9 +692,31 @@ structure ObsFile where
   occs : List SOcc
   deriving DecidableEq, Repr, Inhabited
 
+/-- lanelet as a writer reads it: id, successors, predecessors, traffic-light references (its other attributes are in
+    `Extra.lanelets`; the obstacle registries are not written) -/
+structure LaneletFile where
+  id : Nat
+  succ : List Nat
+  pred : List Nat
+  lights : List Nat
+  deriving DecidableEq, Repr, Inhabited
+
+structure LightFile where
+  id : Nat
+  es : List TL.Elem
+  off : Int
+  active : Bool
+  deriving DecidableEq, Repr, Inhabited
+
+def Lanelet.file (l : Lanelet) : LaneletFile := ⟨l.id, l.succ, l.pred, l.lights⟩
+def Light.file (l : Light) : LightFile := ⟨l.id, l.es, l.off, l.active⟩
+
 structure FileAbs where
   obstacles : List ObsFile
-  problems : List (Nat × List (List Nat))
+  problems : List ProbFile
+  lanelets : List LaneletFile
+  lights : List LightFile
+  extra : Extra
   deriving DecidableEq, Repr, Inhabited
 
 def Pred.fileStates : Pred → List (Int × List (String × Int))
@@ -644,8 +738,9 @@ def St.write (look : Option Tbl → Nat → Option Tbl × Res (List Nat)) (posOn
     St × Res FileAbs :=
   if withProblems then
     let (ps, r) := problemsWrite look posOnly s.problems
-    ({ s with problems := ps }, (fun l => ⟨s.obstacles.map Obstacle.file, l⟩) <$> r)
-  else (s, .ok ⟨s.obstacles.map Obstacle.file, []⟩)
+    ({ s with problems := ps },
+     (fun l => ⟨s.obstacles.map Obstacle.file, l, s.net.lanelets.map Lanelet.file, s.lights.map Light.file, s.extra⟩) <$> r)
+  else (s, .ok ⟨s.obstacles.map Obstacle.file, [], s.net.lanelets.map Lanelet.file, s.lights.map Light.file, s.extra⟩)
 
 /-! ## Operations that read occupancies: the queries they issue, as a function of the observable state -/
 
@@ -657,7 +752,7 @@ inductive Q where
   deriving DecidableEq, Repr, Inhabited
 
 /-- run the queries in order, stop at the first exception -/
-def occQueries : List Q → List Obstacle → List Obstacle × Res (List (Option Occ))
+def occQueries [sem : Sem] : List Q → List Obstacle → List Obstacle × Res (List (Option Occ))
   | [], os => (os, .ok [])
   | .fail e :: _, os => (os, .error e)
   | .occ oid t must :: rest, os =>
@@ -819,13 +914,13 @@ inductive Out where
   deriving DecidableEq, Repr, Inhabited
 
 /-- evaluate `obstacle.prediction.occupancy_set` and drop the answer -/
-def touchOccSet (o : Obstacle) : Obstacle × Res Unit :=
+def touchOccSet [sem : Sem] (o : Obstacle) : Obstacle × Res Unit :=
   match o with
   | .dynamic i init reg p => (.dynamic i init reg p.occSet.1, .ok ())
   | .phantom i p => (.phantom i p.occSet.1, .ok ())
   | o => (o, .ok ())
 
-def runOccQs : List Nat → List Obstacle → List Obstacle
+def runOccQs [sem : Sem] : List Nat → List Obstacle → List Obstacle
   | [], os => os
   | oid :: rest, os => runOccQs rest (withObstacle os oid touchOccSet).1
 
@@ -836,14 +931,14 @@ def runLightQsAt (t : Int) : List Nat → List Light → List Light
 def runLightQs : List Nat → List Light → List Light := runLightQsAt 0
 
 /-- `obstacle.prediction.occupancy_set` (static and environment obstacles have no `prediction`: AttributeError) -/
-def Obstacle.occSet (o : Obstacle) : Obstacle × Res (List Occ) :=
+def Obstacle.occSet [sem : Sem] (o : Obstacle) : Obstacle × Res (List Occ) :=
   match o with
   | .dynamic i init reg p => (.dynamic i init reg p.occSet.1, p.occSet.2)
   | .phantom i p => (.phantom i p.occSet.1, p.occSet.2)
   | o => (o, .error .attr)
 
 /-- goal check on a state the obstacle owns: (obstacle afterwards — its state is written back from the store —, answer) -/
-def Obstacle.reach (goals : List (List String)) (ix : Option Nat) (dec : List (Res Bool)) (o : Obstacle) : Obstacle × Res Bool :=
+def Obstacle.reach [sem : Sem] (goals : List (List String)) (ix : Option Nat) (dec : List (Res Bool)) (o : Obstacle) : Obstacle × Res Bool :=
   match o, ix with
   | .static i init r, none => (.static i (isReached goals init dec).1 r, (isReached goals init dec).2)
   | .dynamic i init r p, none => (.dynamic i (isReached goals init dec).1 r p, (isReached goals init dec).2)
@@ -853,7 +948,7 @@ def Obstacle.reach (goals : List (List String)) (ix : Option Nat) (dec : List (R
     | some st => (.dynamic i init r (.traj t1 (ss.set k (isReached goals st dec).1) sh c), (isReached goals st dec).2)
   | o, _ => (o, .error .attr)
 
-def Obstacle.goalReach (goals : List (List String)) (decs : List (List (Res Bool))) (o : Obstacle) : Obstacle × Res (Option Nat) :=
+def Obstacle.goalReach [sem : Sem] (goals : List (List String)) (decs : List (List (Res Bool))) (o : Obstacle) : Obstacle × Res (Option Nat) :=
   match o with
   | .dynamic i init r (.traj t1 ss sh c) =>
     (.dynamic i init r (.traj t1 (goalReachedStates goals ss decs).1 sh c), (goalReachedStates goals ss decs).2)
@@ -870,14 +965,14 @@ def withProblem {α : Type} (ps : List Problem) (pid : Nat) (f : Problem → Pro
     else (p :: (withProblem rest pid f).1, (withProblem rest pid f).2)
 
 /-- goal check on the planning problem's own initial state -/
-def Problem.reachInit (dec : List (Res Bool)) (q : Problem) : Problem × Res Bool :=
-  ({ q with init := (isReached q.goals q.init dec).1 }, (isReached q.goals q.init dec).2)
+def Problem.reachInit [sem : Sem] (dec : List (Res Bool)) (q : Problem) : Problem × Res Bool :=
+  ({ q with init := (isReached q.goalFields q.init dec).1 }, (isReached q.goalFields q.init dec).2)
 
 def mappingOf (rel : List (Nat × Nat)) (lids oids : List Nat) : List (Nat × List Nat) :=
   (lids.map fun l => (l, oids.filter fun o => rel.contains (l, o))).filter (fun x => !x.2.isEmpty)
 
 /-- One read-only operation. -/
-def step (op : Op) (s : St) : St × Res Out :=
+def step [sem : Sem] (op : Op) (s : St) : St × Res Out :=
   match op with
   | .occ oid t =>
     ({ s with obstacles := (withObstacle s.obstacles oid (fun o => o.occAt t)).1 },
@@ -900,19 +995,19 @@ def step (op : Op) (s : St) : St × Res Out :=
   | .deepcopy => ({ s with net := s.net.deepcopy.1 }, .ok (.copy { s with net := s.net.deepcopy.2 }))
   | .pickle => ({ s with net := s.net.pickle.1 }, .ok (.copy { s with net := s.net.pickle.2 }))
   | .writeXml wp => ((s.write goalLanelets true wp).1, Out.file <$> (s.write goalLanelets true wp).2)
-  | .writePb wp => ((s.write goalLanelets false wp).1, Out.file <$> (s.write goalLanelets false wp).2)
+  | .writePb wp => ((s.write pbLook false wp).1, Out.file <$> (s.write pbLook false wp).2)
   | .reached pid loc dec =>
     match findProblem s.problems pid with
     | none => (s, .error .key)
     | some pr =>
       match loc with
-      | .foreign st => (s, Out.bool <$> (isReached pr.goals st dec).2)
+      | .foreign st => (s, Out.bool <$> (isReached pr.goalFields st dec).2)
       | .obsInit oid =>
-        ({ s with obstacles := (withObstacle s.obstacles oid (Obstacle.reach pr.goals none dec)).1 },
-         Out.bool <$> (withObstacle s.obstacles oid (Obstacle.reach pr.goals none dec)).2)
+        ({ s with obstacles := (withObstacle s.obstacles oid (Obstacle.reach pr.goalFields none dec)).1 },
+         Out.bool <$> (withObstacle s.obstacles oid (Obstacle.reach pr.goalFields none dec)).2)
       | .obsTraj oid i =>
-        ({ s with obstacles := (withObstacle s.obstacles oid (Obstacle.reach pr.goals (some i) dec)).1 },
-         Out.bool <$> (withObstacle s.obstacles oid (Obstacle.reach pr.goals (some i) dec)).2)
+        ({ s with obstacles := (withObstacle s.obstacles oid (Obstacle.reach pr.goalFields (some i) dec)).1 },
+         Out.bool <$> (withObstacle s.obstacles oid (Obstacle.reach pr.goalFields (some i) dec)).2)
       | .probInit =>
         ({ s with problems := (withProblem s.problems pid (Problem.reachInit dec)).1 },
          Out.bool <$> (withProblem s.problems pid (Problem.reachInit dec)).2)
@@ -921,10 +1016,10 @@ def step (op : Op) (s : St) : St × Res Out :=
     | none => (s, .error .key)
     | some pr =>
       match src with
-      | .foreign states => (s, Out.reach <$> (goalReachedStates pr.goals states decs).2)
+      | .foreign states => (s, Out.reach <$> (goalReachedStates pr.goalFields states decs).2)
       | .own oid =>
-        ({ s with obstacles := (withObstacle s.obstacles oid (Obstacle.goalReach pr.goals decs)).1 },
-         Out.reach <$> (withObstacle s.obstacles oid (Obstacle.goalReach pr.goals decs)).2)
+        ({ s with obstacles := (withObstacle s.obstacles oid (Obstacle.goalReach pr.goalFields decs)).1 },
+         Out.reach <$> (withObstacle s.obstacles oid (Obstacle.goalReach pr.goalFields decs)).2)
   -- `__eq__` compares the attribute tables of the target (with itself and with an equal twin): pure reads
   | .eq _ => (s, .ok (.bool true))
   -- `__hash__` hashes the same attribute tables: pure reads
@@ -948,10 +1043,10 @@ def step (op : Op) (s : St) : St × Res Out :=
   | .dynByTime lid t =>
     match findLanelet s.net.lanelets lid with
     | none => (s, .error .attr)
-    | some l => ({ s with net := { s.net with lanelets := setRegs s.net.lanelets lid (l.dynByTime t).1.regs } }, .ok (.ids (l.dynByTime t).2))
+    | some l => ({ s with net := { s.net with lanelets := setRegs s.net.lanelets lid (l.dynByTimeOf t).1.regs } }, .ok (.ids (l.dynByTimeOf t).2))
   | .mergeFrom lid paths =>
-    ({ s with net := { s.net with lanelets := (mergePaths mergeRegs lid paths s.net.lanelets).1 } },
-     Out.regs <$> (mergePaths mergeRegs lid paths s.net.lanelets).2)
+    ({ s with net := { s.net with lanelets := (mergePaths mergeRegsOf lid paths s.net.lanelets).1 } },
+     Out.regs <$> (mergePaths mergeRegsOf lid paths s.net.lanelets).2)
   | .draw p =>
     -- the planning problems are drawn from their own attributes; nothing hidden is touched
     if !p.scenario then (s, .ok .unit) else
@@ -966,19 +1061,19 @@ def step (op : Op) (s : St) : St × Res Out :=
                 lights := renderLights p.tb (runLightQsAt p.tb (s.net.lanelets.flatMap (·.lights)) s.lights) }, .ok .unit)
 
 /-- A sequence of read-only operations (answers dropped). -/
-def run : List Op → St → St
+def run [sem : Sem] : List Op → St → St
   | [], s => s
   | op :: rest, s => run rest (step op s).1
 
 /-- the same, keeping every intermediate state and answer (used by the driver) -/
-def trace : List Op → St → List (St × Res Out)
+def trace [sem : Sem] : List Op → St → List (St × Res Out)
   | [], _ => []
   | op :: rest, s => let r := step op s; r :: trace rest r.1
 
 /-- The hidden caches are consistent: an occupancy cache holds what `_create_occupancy_set` computes from the states, the
     index is over the lanelets, a light cache holds the init steps of its cycle. -/
 def Pred.Inv : Pred → Prop
-  | .traj _ ss sh (some c) => createOccSet sh ss = .ok c
+  | .traj _ ss sh (some c) => createOccs sh ss = .ok c
   | _ => True
 
 def Obstacle.Inv : Obstacle → Prop
@@ -992,10 +1087,5 @@ structure St.Inv (s : St) : Prop where
   obstacles : ∀ o ∈ s.obstacles, o.Inv
   net : s.net.index = none ∨ s.net.index = some s.net.lanelets
   lights : ∀ l ∈ s.lights, l.Inv
-
-/-! ## The unrepaired protobuf writer and occupancy computation (for the defect theorems) -/
-
-def stepPbOld (wp : Bool) (s : St) : St × Res Out :=
-  ((s.write goalLaneletsOld false wp).1, Out.file <$> (s.write goalLaneletsOld false wp).2)
 
 end CR.Frame
